@@ -211,6 +211,12 @@ pub fn range_end<S: core::ops::RangeBounds<A>, A>(range: &S) -> (r: core::ops::B
     ensures r == vstd::std_specs::range::RangeBoundsSpec::spec_end_bound(range)
 { range.end_bound() }
 
+/// R-io-error-new: `io::Error::new(kind, "literal")` (the generic constructor takes `Into<Box<dyn Error + Send + Sync>>`, which the
+/// installed Verus cannot express) becomes a call of this stub: an io::Error of that kind; the message is not observable by any contract
+#[verifier::external_body]
+pub fn io_error_new(kind: std::io::ErrorKind) -> (r: std::io::Error)
+{ std::io::Error::new(kind, "") }
+
 /// R-hoist of `decompress(ct, reader.take(block_len), &mut out)?` (compression.rs dispatcher + std Take + codec crates):
 /// ASSUMED: reads the next block_len bytes of the source (however the reads are split) and appends their
 /// decompression to `out`; counts as one block load.
@@ -282,6 +288,9 @@ pub struct ExIoError(std::io::Error);
 
 #[verifier::external_type_specification]
 pub struct ExSeekFrom(std::io::SeekFrom);
+
+#[verifier::external_type_specification]
+pub struct ExIoErrorKind(std::io::ErrorKind);
 
 #[verifier::reject_recursive_types(T)]
 #[verifier::external_type_specification]
